@@ -357,6 +357,24 @@ theorem list_autodim1 (st : State) (hw : WF st) (name : Nat) (hf : find name st.
       simp only [List.nil_append, List.cons.injEq, and_true] at he
       omega
 
+/-- ERASE and re-use (the history class of seed C43c): after `ERASE name` of a declared array — whatever
+    other arrays exist — a list written to `name` creates the array afresh (dimensioned to 10), stores the
+    list from the base on and leaves zeros behind it; nothing of the erased array (dimensions, content)
+    survives, and every other array is still found unchanged right after the ERASE. -/
+theorem list_after_erase1 (st : State) (hw : WF st) (name : Nat) (a : Arr)
+    (hf : find name st.arrs = some a) (l : List Int) (hl : l ≠ []) (hfit : l.length ≤ 10) :
+    ∃ st1 st2, erase st [name] = (st1, none) ∧ find name st1.arrs = none ∧
+      (∀ n, n ≠ name → find n st1.arrs = find n st.arrs) ∧
+      fromList1 st1 name l = (st2, none) ∧
+      (∃ a', find name st2.arrs = some a' ∧ a'.dims = [10]) ∧
+      (∀ (k : Nat) (v : Int), l[k]? = some v → rd st2 name [(k : Int) + st1.b] = v) ∧
+      (∀ i : Int, st1.b ≤ i → i ≤ 10 → (l.length : Int) + st1.b ≤ i → rd st2 name [i] = 0) := by
+  obtain ⟨st1, he, hw1, hf1, hoth, _⟩ := C12.erase_then_dim st hw name a hf
+  have hb := hw1.b01
+  have hfit' : (l.length : Int) ≤ 11 - st1.b := by rcases hb with e | e <;> omega
+  obtain ⟨st2, h1, h2, _, h4, h5⟩ := list_autodim1 st1 hw1 name hf1 l hl hfit'
+  exact ⟨st1, st2, he, hf1, hoth, h1, h2, h4, h5⟩
+
 /-- an empty list (at any level) is refused before anything is written -/
 theorem list_empty_rejected (st : State) (name : Nat) (pre : List Int) :
     fromRow name pre [] st = (st, some valueError) ∧
